@@ -192,6 +192,48 @@ func faultList() []fault {
 			out = append(out, fault{p + " method " + m, rawReq(m, p, good), true})
 		}
 	}
+	// request HEADERS: everything so far varied the request line and the body only.  Header values a client (or a proxy
+	// in front of the service) may send, on a well-formed request, a refused one and a bodiless one
+	{
+		long := strings.Repeat("h", 7000)
+		hv := map[string][]string{
+			"User-Agent":       {"", " ", "probe", "fasthttp", strings.Repeat("a", 40), "a/b", "Mozilla/5.0 (X11; Linux x86_64) Gecko/20100101", "x;y", "(", "/", "\xc3\xa9t\xc3\xa9", long},
+			"Accept":           {"", "*/*", "text/html", "application/json;q=0.9,*/*;q=0.1", ";;;", long},
+			"Accept-Encoding":  {"gzip", "br, gzip, deflate", "identity;q=0", "", "x"},
+			"Content-Type":     {"", "text/plain", "application/json; charset=utf-8", "application/x-www-form-urlencoded", "multipart/form-data; boundary=", "APPLICATION/JSON", ";"},
+			"Content-Encoding": {"gzip", "identity", "br"},
+			"X-Forwarded-For":  {"1.2.3.4", "garbage", "::1", "1.2.3.4, 5.6.7.8, " + strings.Repeat("9.9.9.9, ", 300), ""},
+			"X-Request-Id":     {"", "1", long},
+			"Authorization":    {"", "Bearer", "Bearer x", "Basic !!!", "Basic " + strings.Repeat("QQ", 2000)},
+			"Cookie":           {"", "a", "a=b; c", "=", strings.Repeat("k=v; ", 1000)},
+			"Connection":       {"close", "keep-alive", "upgrade", "x"},
+			"Upgrade":          {"websocket", "h2c"},
+			"Expect":           {"100-continue", "x"},
+			"Range":            {"bytes=0-1", "bytes=-1", "x"},
+			"If-None-Match":    {"*", "\"x\""},
+			"Origin":           {"null", "https://example.com", "x"},
+			"Referer":          {"", "http://" + strings.Repeat("r", 3000)},
+			"Host":             {"", "x", "x:y", "[::1]", strings.Repeat("h", 300)},
+		}
+		var names []string
+		for n := range hv {
+			names = append(names, n)
+		}
+		sort.Strings(names)
+		good := bodyOf(validBody("/hotp/generate"))
+		for _, n := range names {
+			for i, v := range hv[n] {
+				h := map[string]string{n: v}
+				q1 := rawReq("POST", "/hotp/generate", good)
+				q1.Headers = h
+				q2 := rawReq("GET", "/ocra/suites", "")
+				q2.Headers = h
+				q3 := rawReq("PUT", "/totp/validate", good)
+				q3.Headers = h
+				out = append(out, fault{fmt.Sprintf("POST /hotp/generate with header %s #%d", n, i), q1, false}, fault{fmt.Sprintf("GET /ocra/suites with header %s #%d", n, i), q2, false}, fault{fmt.Sprintf("PUT /totp/validate with header %s #%d", n, i), q3, true})
+			}
+		}
+	}
 	// skew / period / counter / timestamp extremes in combination
 	u := ref.B32Encode(restKey)
 	for _, sk := range []string{"11", "255", "3000000", "4294967295", "4294967296", "9223372036854775807", "9223372036854775808", "18446744073709551615"} {
@@ -398,7 +440,7 @@ func runFaults(c c19Case, base map[string]uint64) (obs, bad string) {
 		blocked := false
 		func() {
 			defer func() { pv = recover() }()
-			blocked = !irt.RunGuarded(func() { resp = restDo(ctx, f.Req.Method, f.Req.uri(), f.Req.body()) })
+			blocked = !irt.RunGuarded(func() { resp = restDo(ctx, f.Req.Method, f.Req.uri(), f.Req.body(), f.Req.Headers) })
 		}()
 		if blocked {
 			irt.SetBudget(0)
